@@ -37,11 +37,24 @@ class Driver:
         self.expected_stream: t.List[tuple] = []  # abstract messages of accepted sends, in call order
         self.closed_seen = False
         self.ids_returned: t.List[int] = []
+        self._shared_controls: list = []
         self.dead = False  # set when the session accepted a call the harness built to fail: model and session are out of step
 
     # ------------------------------------------------------------------ call execution
+    def _ctl(self, ctl):
+        """controls= argument of a call: None, or a list - on odd calls the SAME list object the previous call got,
+        refilled in place (an application that keeps one controls list and updates it, e.g. the paged-results cookie)."""
+        if not ctl:
+            return None
+        new = [av.b_control(c) for c in ctl]
+        if self.n % 2:
+            self._shared_controls[:] = new
+            return self._shared_controls
+        return new
+
     def _call(self, action):
         s = self.sess
+        _ctl = self._ctl
         k = action[0]
         if k == "bind_simple":
             _, dn, pw, ctl = action
